@@ -10,7 +10,7 @@ parse_path / format_path against the extracted text model on generated descripti
 import os, socket, struct, subprocess, sys, time
 from vlib import core
 
-TAGS = {'T': ('DINT', 8), 'S': ('INT', 6), 'B': ('SINT', 4)}
+TAGS = {'T': ('DINT', 8), 'S': ('INT', 6), 'B': ('SINT', 4), 'L': ('INT', 300)}
 TYCODE = {'DINT': 196, 'INT': 195, 'SINT': 194}
 TYSIZE = {'DINT': 4, 'INT': 2, 'SINT': 1}
 
@@ -54,6 +54,10 @@ def gen_ops(rng):
             wty = ty if rng.random() < 0.85 else rng.choice(list(TYCODE))
             op = dict(path=[{'symbolic': name}, {'element': a}], elements=cnt, tag_type=TYCODE[wty], method='write',
                       data=[rng.randrange(-100, 100) for _ in range(cnt)])
+        elif r < 0.89:
+            # a read larger than one reply can carry (more than 244 INTs), with no byte offset: the same first fragment whether or not the
+            # Fragmented service is used
+            op = dict(path=[{'symbolic': 'L'}, {'element': rng.choice([0, 10])}], elements=rng.choice([244, 245, 280]), method='read', tag_type=195)
         elif r < 0.93:
             op = dict(path=[{'symbolic': 'NoSuchTag'}], elements=1, method='read')    # refused
         else:
